@@ -1,5 +1,125 @@
-(* C06 - statements (work in progress) *)
-From LV Require Import Own.World.
-Theorem C06_stub : ledger w0 = 0%Z.
+(* C06 - ownership: every allocation is released exactly once across any object history.
+   Statements only; proofs in Own/CostProofs.v, Own/LedgerProofs.v, Own/FrameProofs.v,
+   Own/StepSafe.v, Own/SpecProofs.v.  Model: Own/World.v - a program is a list of operations over
+   the handles it holds; [step] keeps the LEDGER of live allocations, updated where the C code has
+   MALLOC / REALLOC / STRDUP / FREE / SPIF_ALLOC / SPIF_DEALLOC; [footprint] / [release] / [dup_cost]
+   are read off the new / done / dup routines of every class.  [pcre] is the oracle "blocks left
+   allocated by pcre_compile", [ft] the flag-letter table generated from src/regexp.c. *)
+From LV Require Import Own.SpecProofs.
+Local Open Scope Z_scope.
+
+(* the ledger is always base + the sum of the footprints of what the program holds *)
+Theorem C06_ledger_invariant : forall pcre ft b p w w' outs,
+  run pcre ft w p = Ok (w', outs) -> Inv b w -> Inv b w'.
+Proof. exact run_inv. Qed.
+Print Assumptions C06_ledger_invariant.
+
+Theorem C06_ledger_invariant_step : forall pcre ft b w op w' r,
+  step pcre ft w op = Ok (w', r) -> Inv b w -> Inv b w'.
+Proof. exact step_inv. Qed.
+Print Assumptions C06_ledger_invariant_step.
+
+(* once the program has deleted every object it created or was handed, the heap holds exactly
+   what it held before *)
+Theorem C06_balance : forall pcre ft p w w' outs,
+  run pcre ft w p = Ok (w', outs) -> held w = [] -> held w' = [] -> ledger w' = ledger w.
+Proof. exact balance. Qed.
+Print Assumptions C06_balance.
+
+(* what the del chain of a class frees is what its constructors and mutators allocated; what its
+   dup routine allocates is the footprint of the copy *)
+Theorem C06_release_is_footprint : forall o, release o = footprint o.
+Proof. exact release_is_footprint. Qed.
+Print Assumptions C06_release_is_footprint.
+
+Theorem C06_dup_allocates_footprint : forall pcre o o', copy pcre o = Ok o' -> dup_cost pcre o = footprint o'.
+Proof. exact copy_footprint. Qed.
+Print Assumptions C06_dup_allocates_footprint.
+
+(* done() leaves an object reusable and empty: only the object block remains, the state is the
+   class's empty state, init succeeds on it *)
+Theorem C06_done_reusable : forall pcre ft w h x w' r,
+  get w h = Ok x -> x <> ORaw -> step pcre ft w (Done h) = Ok (w', r) ->
+  lookup h (held w') = Some (done_state x) /\ footprint (done_state x) = 1 /\
+  ledger w' = ledger w - (footprint x - 1) /\
+  ((forall c s, x <> OIter c s) ->
+   is_empty_state (done_state x) = true /\
+   exists w'', step pcre ft w' (Init h) = Ok (w'', RBool true) /\ lookup h (held w'') = Some (done_state x) /\
+               ledger w'' = ledger w').
+Proof. exact done_reusable. Qed.
+Print Assumptions C06_done_reusable.
+
+(* a container never frees an element it has handed back: after remove / remove_at / vector remove /
+   map remove the result is a separately held handle and the container's tree no longer contains
+   that occurrence ... *)
+Theorem C06_handed_back_not_owned : forall pcre ft w o c w' h',
+  remover o = Some c -> Good w -> step pcre ft w o = Ok (w', RNew h' false) ->
+  exists i k a al al' l1 x l2,
+    lookup c (held w) = Some (OCont i k a al (l1 ++ Some x :: l2)) /\
+    lookup c (held w') = Some (OCont i k a al' (l1 ++ l2)) /\
+    lookup h' (held w') = Some x /\ lookup h' (held w) = None /\ h' <> c.
+Proof. exact handed_back. Qed.
+Print Assumptions C06_handed_back_not_owned.
+
+(* ... so deleting the container later releases only the container's own footprint and leaves the
+   handed-back object held, and deleting the object leaves the container as it is *)
+Theorem C06_handed_back_independent : forall pcre ft w' c h' x co,
+  h' <> c -> lookup h' (held w') = Some x -> lookup c (held w') = Some co ->
+  (forall w2 r, step pcre ft w' (Del c) = Ok (w2, r) -> lookup h' (held w2) = Some x /\ ledger w2 = ledger w' - footprint co) /\
+  (forall w2 r, step pcre ft w' (Del h') = Ok (w2, r) -> lookup c (held w2) = Some co /\ ledger w2 = ledger w' - footprint x).
+Proof. exact handed_back_independent. Qed.
+Print Assumptions C06_handed_back_independent.
+
+(* a map never frees or retains the caller's own key and value objects: after set the caller
+   still holds both, unchanged, and the map's tree contains an entry whose value (and, for a new
+   key, whose key) is a copy with the same observable value *)
+Theorem C06_map_takes_copies : forall pcre ft w m k v w' r ko vo,
+  get w k = Ok ko -> get w v = Ok vo -> step pcre ft w (MSet m k v) = Ok (w', r) ->
+  lookup k (held w') = Some ko /\ lookup v (held w') = Some vo /\
+  exists i c a al xs' pk v2,
+    lookup m (held w') = Some (OCont i c a al xs') /\ In (Some (OPair pk (Some v2))) xs' /\ abs v2 = abs vo /\
+    (r = RBool false -> exists k2, pk = Some k2 /\ abs k2 = abs ko).
+Proof. exact map_takes_copies. Qed.
+Print Assumptions C06_map_takes_copies.
+
+(* an operation changes only the handles it writes; everything else the program holds is untouched *)
+Theorem C06_others_untouched : forall pcre ft h w op w' r,
+  step pcre ft w op = Ok (w', r) -> ~ In h (writes op) -> is_delall op = false ->
+  forall o, lookup h (held w) = Some o -> lookup h (held w') = Some o.
+Proof. exact step_keeps. Qed.
+Print Assumptions C06_others_untouched.
+
+(* nothing is freed twice or used after being freed: on good worlds (all reachable ones) the model
+   faults only with the two PROGRAM errors - use of a handle that is not held, wrong class; never
+   Null_deref, Bad_free, OOB_*, Out_of_fuel *)
+Theorem C06_no_library_fault : forall pcre ft p w, Good w ->
+  match run pcre ft w p with Ok (w', _) => Good w' | Fault f => f = Use_after_free \/ f = Abort end.
+Proof. exact run_safe. Qed.
+Print Assumptions C06_no_library_fault.
+
+Theorem C06_no_library_fault_step : forall pcre ft w op, Good w ->
+  match step pcre ft w op with Ok (w', _) => Good w' | Fault f => f = Use_after_free \/ f = Abort end.
+Proof. exact step_safe. Qed.
+Print Assumptions C06_no_library_fault_step.
+
+Theorem C06_initial_world_good : Good w0 /\ Inv 0 w0.
+Proof. exact (conj good_w0 inv_w0). Qed.
+Print Assumptions C06_initial_world_good.
+
+(* ---- non-vacuity ---- *)
+Definition pc (_ : option text) (_ : Z) : Z := 1.
+(* a map that is overwritten, read out, emptied by remove and deleted while the caller's key and
+   value are still alive; a list with placeholders deleted non-empty; done + init + reuse *)
+Definition ex_prog : list op :=
+  [NewCont IMap DL; NewStr (Some [107]); NewStr (Some [118]); MSet 0 1 2; MSet 0 1 2; MKeys 0 None; MRemove 0 1;
+   NewCont IList LL; LInsertAt 5 1 3; Dup 5; Done 5; Init 5; LAppend 5 2; NewTok (Some [97; 32; 98]); TokEval 7; TokEval 7;
+   NewRegexp (Some [97]); ReSetFlags 8 [105]; NewUrl (Some [120; 58; 47; 47; 104; 58; 49]); UrlUnparse 9; DelAll].
+Example ex_balance : exists w outs, run pc [(105, 1)] w0 ex_prog = Ok (w, outs) /\ held w = [] /\ ledger w = 0 /\
+                                     List.existsb (fun e => 20 <=? snd e) outs = true.
+Proof. do 2 eexists. split; [vm_compute; reflexivity|]. repeat split. Qed.
+Example ex_handed_back :
+  exists w, step pc [] (mkWorld [(0%nat, OCont IList Arr 0 true [Some (OStr (Some [97])); None])] 1 1 4) (LRemoveAt 0 0)
+            = Ok (w, RNew 1 false) /\ lookup 1 (held w) = Some (OStr (Some [97])) /\ ledger w = 4.
+Proof. eexists. split; [vm_compute; reflexivity|]. split; reflexivity. Qed.
+Example ex_program_error : step pc [] w0 (Del 3) = Fault Use_after_free.
 Proof. reflexivity. Qed.
-Print Assumptions C06_stub.
